@@ -113,7 +113,11 @@ func runCase(run *vh.Run, idx int, c Case) *obs {
 	defer func() {
 		// the Coq case: structured query, reference available, every union selection covers all members (the
 		// null thunder's executor renders for an uncovered member, DESIGN F5, is not part of the model's contract)
-		if searching || c.QueryText != "" || timedOut || g.sync.last == nil || hasPartialUnion(&c, frags) {
+		if searching || c.QueryText != "" || timedOut || g.sync.last == nil {
+			return
+		}
+		// coverage of the unions once the directives are applied (a member fragment left without content covers nothing)
+		if pa, ok := prunedForAnalysis(&c, frags); !ok || hasPartialUnion(&pa, map[string]FragDef{}) {
 			return
 		}
 		ref, refErr := runReference(&c, w)
@@ -146,7 +150,7 @@ func runCase(run *vh.Run, idx int, c Case) *obs {
 		}
 		// the premises of Props/C06.federation_transparent, as far as the harness can see them (the Coq side
 		// evaluates the precise ones on every case counted here)
-		inScope := allFed && !fieldDirectives(c.Query, frags, map[string]bool{}) && flatSS != nil && planTerm != "None" &&
+		inScope := allFed && flatSS != nil && planTerm != "None" &&
 			answerTerm != "None" && flatInScope(flatSS, "Query", retMap(c.Services))
 		if inScope {
 			run.Hist("model:premises-of-transparency-theorem-hold")
@@ -209,6 +213,22 @@ func runCase(run *vh.Run, idx int, c Case) *obs {
 		failCapped(run, idx, sig, fmt.Sprintf("gateway: %s; monolith: %s; query: %s", short(gwErr, 300), short(js(mono), 200), short(text, 400)), c)
 	default:
 		run.Hist("outcome:both-ok")
+		// directives: the annotated query is answered exactly as the query with the directives applied textually
+		if c.QueryText == "" && anyDirective(&c) {
+			if pc, ok := prunedCase(&c, frags); ok {
+				run.Hist("oracle:pruned-query-compared")
+				gwP, errP, toP := runGateway(g, &pc)
+				switch {
+				case toP:
+				case errP != "":
+					failCapped(run, idx, "gateway-directive-not-equivalent-to-pruned", fmt.Sprintf("annotated query answered, pruned query fails: %s; annotated: %s; pruned: %s", short(errP, 200), short(text, 400), short(pc.text(), 300)), c)
+				case !deepEqualJSON(gw, gwP):
+					failCapped(run, idx, "gateway-directive-not-equivalent-to-pruned", fmt.Sprintf("annotated: %s gives %s; pruned: %s gives %s", short(text, 400), short(js(gw), 300), short(pc.text(), 300), short(js(gwP), 300)), c)
+				}
+			} else {
+				run.Hist("oracle:pruned-query-not-expressible")
+			}
+		}
 		strips := unionTypenameStrips(&c, retMap(c.Services), frags)
 		gwN := normaliseUnions(stripAt(gw, "", strips), "", strips)
 		monoN := normaliseUnions(mono, "", strips)
@@ -249,38 +269,14 @@ func runCase(run *vh.Run, idx int, c Case) *obs {
 	return ob
 }
 
-// fieldDirectives: some field selection of the query (through inline and named fragments) carries a directive.
-func fieldDirectives(sels []Sel, frags map[string]FragDef, seen map[string]bool) bool {
-	for _, s := range sels {
-		switch {
-		case s.Spread != "":
-			if !seen[s.Spread] {
-				seen[s.Spread] = true
-				if fieldDirectives(frags[s.Spread].Subs, frags, seen) {
-					return true
-				}
-			}
-		case s.On != "":
-			if fieldDirectives(s.Subs, frags, seen) {
-				return true
-			}
-		default:
-			if s.Dir != nil || fieldDirectives(s.Subs, frags, seen) {
-				return true
-			}
-		}
-	}
-	return false
-}
-
-// flatInScope: the gateway's normalised query has no directive left and every selection on a union-typed field
+// flatInScope: the gateway's normalised query keeps no selection its directives exclude and every selection on a union-typed field
 // has a non-empty fragment for every member of the union (Coq: flat_ok).
 func flatInScope(ss *graphql.SelectionSet, typ string, rets map[string]fedgen.Ret) bool {
 	if ss == nil {
 		return true
 	}
 	for _, s := range ss.Selections {
-		if len(s.Directives) > 0 {
+		if ok, err := graphql.ShouldIncludeNode(s.Directives); err != nil || !ok {
 			return false
 		}
 		if s.Name == "__typename" {
@@ -354,7 +350,7 @@ func main() {
 	}
 	o := vh.ParseFlags()
 	run := vh.NewRun("C06", o)
-	run.Rule = "a case = (random set of field funcs over catalogue objects A-D, unions, a plain object; scalars, enums, lists, nullable and non-null results; arguments incl. input objects) x (random partition over 2-4 services, 20% of the fields on two services, random key struct per (service, object)) x (ServiceSelector choice) x (query: aliases, repeated aliases with different sub-selections at several levels (55%) or @skip/@include with literals and variables (45%), inline / nested / named fragments, unions, arguments, depth 2-4) over a seeded world with nulls, null list elements and empty lists; non-trivial = gateway and monolith both answer, at least 2 sub-requests reach services and the answer is not {}; distinct by (partition, selector, query text)"
+	run.Rule = "a case = (random set of field funcs over catalogue objects A-D, unions, a plain object; scalars, enums, lists, nullable and non-null results; arguments incl. input objects) x (random partition over 2-4 services, 20% of the fields on two services, random key struct per (service, object)) x (ServiceSelector choice) x (query: aliases, repeated aliases with different sub-selections at several levels (55%), @skip/@include (55%; literals and variables, both on one node, on field selections incl. __typename and repeated aliases, on inline fragments and on fragment spreads), inline / nested / named fragments, unions, arguments, depth 2-4) over a seeded world with nulls, null list elements and empty lists; non-trivial = gateway and monolith both answer, at least 2 sub-requests reach services and the answer is not {}; distinct by (partition, selector, query text)"
 	r := vh.NewRng(o.Seed)
 
 	var cases []Case
